@@ -87,7 +87,8 @@ func GetRangeStart(res *http.Response) int64 {
 		return -1
 	}
 
-	re := regexp.MustCompile(`bytes (\d+)-\d+/\d+`)
+	// The complete length may be unknown to the origin: "bytes 100-199/*".
+	re := regexp.MustCompile(`bytes (\d+)-\d+/(?:\d+|\*)`)
 	matchSlice := re.FindStringSubmatch(res.Header.Get("Content-Range"))
 
 	if len(matchSlice) < 2 {
